@@ -50,22 +50,39 @@ func c05(c *Ctx) {
 				continue
 			}
 			n++
-			fromCallee := false
-			switch x := ev.(type) {
-			case *ssa.Extract:
-				_, fromCallee = x.Tuple.(*ssa.Call)
-			case *ssa.Call:
-				// a wrapper of a callee's error (errors.Wrap(err, ...)) or the error result of a one-result callee
-				if g := an.StaticCallee(x.Common()); g != nil && load.FuncPkgPath(g) == load.IgePkg {
-					fromCallee = true
-				} else if len(x.Call.Args) > 0 {
-					if e2, isE := x.Call.Args[0].(*ssa.Extract); isE {
-						_, fromCallee = e2.Tuple.(*ssa.Call)
-					} else if c2, isC := x.Call.Args[0].(*ssa.Call); isC {
-						fromCallee = an.StaticCallee(c2.Common()) != nil
+			var calleeErr func(v ssa.Value, depth int) bool
+			calleeErr = func(v ssa.Value, depth int) bool {
+				switch x := v.(type) {
+				case *ssa.Extract:
+					_, ok := x.Tuple.(*ssa.Call)
+					return ok
+				case *ssa.Call:
+					// a wrapper of a callee's error (errors.Wrap(err, ...)) or the error result of a one-result callee
+					if g := an.StaticCallee(x.Common()); g != nil && load.FuncPkgPath(g) == load.IgePkg {
+						return true
+					} else if len(x.Call.Args) > 0 {
+						if e2, isE := x.Call.Args[0].(*ssa.Extract); isE {
+							_, ok := e2.Tuple.(*ssa.Call)
+							return ok
+						} else if c2, isC := x.Call.Args[0].(*ssa.Call); isC {
+							return an.StaticCallee(c2.Common()) != nil
+						}
 					}
+				case *ssa.Phi:
+					// a join (the result variable of an inlined helper): every way in carries a callee's error or nil
+					if depth > 6 {
+						return false
+					}
+					for _, e := range x.Edges {
+						if !an.IsNilConst(e) && !calleeErr(e, depth+1) {
+							return false
+						}
+					}
+					return true
 				}
+				return false
 			}
+			fromCallee := calleeErr(ev, 0)
 			if !fromCallee {
 				bad = append(bad, "the exit at "+c.pos(ret.Pos())+" returns an error made by the wrapper itself ("+simplifyOrigin(an.NewTracer().OriginString(ev))+")")
 			}
